@@ -5,6 +5,11 @@
 # there and every quick check is run with --repo <worktree>.
 out=$1; jobs=$2; shift 2
 mkdir -p "$out"
+# the checks run from a private snapshot of /verif/sa, so that rules may be
+# edited while an evaluation is in progress without contaminating it
+SNAP=$(mktemp -d /tmp/sasnap.XXXXXX)
+cp -r /verif/sa /verif/known_findings.json "$SNAP"/; mkdir -p "$SNAP/.cache"; cp /verif/.cache/* "$SNAP/.cache/" 2>/dev/null
+export SNAP
 one() {
   d=$1; out=$2
   tag=$(echo "$d" | sed 's#/*$##' | awk -F/ '{print $(NF-2)"-"$(NF-1)"-"$NF}')
@@ -13,7 +18,7 @@ one() {
   git -C /repo worktree add -f --detach "$wt" HEAD -q >/dev/null 2>&1 || { echo "WT-FAILED" > "$out/$tag.log"; return; }
   ( cd "$wt" && { git apply --3way "$d/patch.diff" 2>"$out/$tag.apply" || git apply "$d/patch.diff" 2>>"$out/$tag.apply"; } ) || { echo "APPLY-FAILED" > "$out/$tag.log"; git -C /repo worktree remove --force "$wt"; return; }
   : > "$out/$tag.log"
-  cd /verif
+  cd "$SNAP"
   for p in C01 C02 C03 C04 C05 C06 C07 C08 C09 C10 C11 C12 C13 C14 C15 C16 C18 C19 C20; do
     /venv/bin/python -m sa.run $p --no-evidence --repo "$wt" 2>&1 | grep -E "^  C[0-9]+\.|ANALYSIS-ERROR|Traceback|Error" | cut -c1-300 | sed "s/^/[$p] /" >> "$out/$tag.log"
   done
@@ -23,3 +28,4 @@ one() {
 export -f one
 printf "%s\n" "$@" | xargs -P "$jobs" -I{} bash -c 'one {} '"$out"
 git -C /repo worktree prune
+rm -rf "$SNAP"
